@@ -28,7 +28,13 @@ pub struct CustomProvider(pub Arc<Psl>);
 pub struct CustomProviderErr(pub Arc<Psl>, pub u8);
 impl EffectiveTLDProvider for CustomProviderErr {
     fn effective_tld_plus_one<'a>(&self, domain: &'a str) -> Result<&'a str, public_suffix::Error> {
-        CustomProvider(self.0.clone()).effective_tld_plus_one(domain).map_err(|_| if self.1 == 1 { public_suffix::Error::InvalidPublicSuffix } else { public_suffix::Error::EmptyLabel })
+        // variant 4: a provider that panics where another one returns an error (user-supplied code
+        // may do that); the lookup did not succeed, so nothing may be accepted on its strength
+        CustomProvider(self.0.clone()).effective_tld_plus_one(domain).map_err(|_| match self.1 {
+            1 => public_suffix::Error::InvalidPublicSuffix,
+            4 => panic!("injected: the suffix provider panicked"),
+            _ => public_suffix::Error::EmptyLabel,
+        })
     }
 }
 impl EffectiveTLDProvider for CustomProvider {
@@ -318,6 +324,8 @@ pub fn eval(w: &World, c: &Case) -> (Vec<Finding>, String, bool) {
     let mut fs = vec![];
     let (verdict, sh) = match par::catch(|| verify(w, c)) {
         Ok(x) => x,
+        // the harness's own provider panicked and the panic came through: no verdict, nothing accepted
+        Err(p) if c.custom_err == 4 && p.contains("injected:") => return (fs, "provider-panic-propagated".into(), false),
         Err(p) => {
             fs.push(Finding::new(format!("origin={}/kind=panic/site={}", c.kind, par::panic_site(&p)), format!("assert_domain panicked: {p}"), case));
             return (fs, "panic".into(), true);
@@ -351,6 +359,7 @@ pub fn eval(w: &World, c: &Case) -> (Vec<Finding>, String, bool) {
             }
         });
         match valid {
+            Err(p) if c.custom_err == 4 && p.contains("injected:") => {}
             Err(p) => fs.push(Finding::new(format!("origin=any/kind=is-valid-rp-id-panic/site={}", par::panic_site(&p)), format!("is_valid_rp_id({rp:?}) panicked: {p}"), case.clone())),
             Ok(true) => {
                 if !(w.registrable3(c.custom_provider, c.custom_err, rp) || (rp == "localhost" && c.localhost)) {
@@ -482,7 +491,7 @@ pub fn cases(w: &World, tier: Tier) -> Vec<Case> {
             for custom_provider in [false, true] {
                 v.push(Case { kind: kind.into(), origin: origin.clone(), rp: rp.clone(), localhost, custom_provider, through_client: tc && !custom_provider, custom_err: 0 });
                 if custom_provider && !localhost && !in_dictionary_part.get() {
-                    for custom_err in [1u8, 2, 3] {
+                    for custom_err in [1u8, 2, 3, 4] {
                         v.push(Case { kind: kind.into(), origin: origin.clone(), rp: rp.clone(), localhost, custom_provider, through_client: false, custom_err });
                     }
                 }
